@@ -499,10 +499,30 @@ ORACLES = {'table': o_table, 'corr': o_corr}
 def exhaustive(ctx, depth, alphabet, init=None):
     """depth-first enumeration of all sequences over the alphabet up to `depth`, sharing prefixes:
     the implementation state is deep-copied per node, the model state is saved with push/pop.
-    One driver batch per first letter (bounds the memory)."""
-    bad = []
+    The enumeration is cut by first letter; the chunks are sent to the driver in batches of at most ~60 k nodes
+    (one driver start costs 0.5 s; the batches bound the memory)."""
+    init = init or EXH_INIT
+    bad, pend, npend = [], [], 0
+
+    def flush():
+        if not pend:
+            return
+        all_lines = [l for lines, _, _ in pend for l in lines]
+        answers = ctx.driver('C16', all_lines)
+        off = 0
+        for lines, nodes, first in pend:
+            bad.extend(_exh_eval(ctx, depth, alphabet, first, init, lines, nodes, answers[off:off + len(lines)]))
+            off += len(lines)
+        del pend[:]
+
     for first in range(len(alphabet)):
-        bad += _exh_chunk(ctx, depth, alphabet, first, init or EXH_INIT)
+        lines, nodes = _exh_chunk(ctx, depth, alphabet, first, init)
+        pend.append((lines, nodes, first))
+        npend += len(nodes)
+        if npend > 60000:
+            flush()
+            npend = 0
+    flush()
     return bad
 
 
@@ -536,7 +556,11 @@ def _exh_chunk(ctx, depth, alphabet, first, init):
                 rec(cs, p)
             lines.append('pop')
     rec(conts, ())
-    out = [a for a, l in zip(ctx.driver('C16', lines), lines) if l not in ('reset', 'push', 'pop')]
+    return lines, nodes
+
+
+def _exh_eval(ctx, depth, alphabet, first, init, lines, nodes, answers):
+    out = [a for a, l in zip(answers, lines) if l not in ('reset', 'push', 'pop')]
     assert len(out) == len(nodes)
     bad = []
     tainted = {(): set()}
@@ -587,8 +611,8 @@ def run(ctx):
                         'no NaN in sort keys; conversions dicts have distinct old names (a Python dict)']
     # ---- bounded-exhaustive histories
     depth = ctx.n(4, 5)
-    # quick: 11 of the 15 core letters (the other three are in EXH_FULL); thorough: all 15
-    alphabet = EXH_ALPHABET if ctx.thorough else [EXH_ALPHABET[i] for i in (0, 1, 2, 3, 5, 6, 7, 9, 12, 13, 14)]
+    # quick: 12 of the 15 core letters (the other three are in EXH_FULL); thorough: all 15
+    alphabet = EXH_ALPHABET if ctx.thorough else [EXH_ALPHABET[i] for i in (0, 1, 2, 3, 4, 5, 6, 7, 9, 12, 13, 14)]
     bad = [(p, d, alphabet, EXH_INIT) for p, d in exhaustive(ctx, depth, alphabet)]
     # every operation kind (dtype conversion, tidy_up, masks, fresh append_field, copy(), read-only, failing constructor / sort)
     if ctx.thorough:
@@ -623,7 +647,7 @@ def run(ctx):
         seen.add(sig)
         report(ctx, case, d)
     # ---- random sequences (correspondence + oracle)
-    n_seq = ctx.n(100, 3000)
+    n_seq = ctx.n(150, 3000)
     disagreements = len(bad)
     batch, all_lines = [], []
     for i in range(n_seq):
